@@ -1207,6 +1207,9 @@ func runCase(line string) output {
 			}
 		} else {
 			sc.tag("structural-deadlock")
+			c.mu.Lock()
+			c.trace = append(c.trace, "DEADLOCK")
+			c.mu.Unlock()
 			select {
 			case <-sc.callRet:
 				// the call returned once everything ran freely: the tracked state was wrong
